@@ -21,7 +21,10 @@ RULE = ('1..4 fake modules (0..4 parameters each: no read function / plain read 
         'duration and outcome scripts (ok, SECoP error, silent error, arbitrary exception, communication failure), '
         'run-time actions at virtual times (pollinterval change, setFastPoll, trigger, immediate trigger, reconnect '
         'callback, shutdown; also two requests at the same virtual time), persisting communication failures at '
-        'start-up; a case is non-trivial when the poller made at least 3 calls; distinct = distinct '
+        'start-up; explicit durations of the driver functions of specific modules (an earlier module whose doPoll lasts '
+        'longer than its poll interval for a while and a later module with a long interval; a first module whose pass '
+        'through its slow polls exceeds its slowinterval and further modules with slow-polled parameters); '
+        'a case is non-trivial when the poller made at least 3 calls; distinct = distinct '
         '(module descriptors, consumed scripts, actions) tuples')
 ASSUMPTIONS = [
     'virtual time: the clock advances only by scripted call durations, by Event.wait time-outs and by a per-turn '
@@ -154,6 +157,7 @@ class _Run:
         self.owner = None
         self.in_main = 0
         self.calls = []          # top-level calls made by the poller: [kind, module, param, start, end]
+        self.ncalls = {}         # (module, 0 doPoll / 1 read) -> calls so far (for cyclic explicit durations)
         self.waits = []          # [log position, start, requested time-out, actual end] of every Event.wait
 
     # --- clock (replaces the name `time` in frappy.modulebase)
@@ -234,6 +238,20 @@ class _Run:
             rec = [kind, m, what[1] if len(what) > 1 else None, self.now, None]
             self.calls.append(rec)
         ent = self.script[self.si] if self.si < len(self.script) else [1, 'ok']
+        # explicit durations of the driver functions of SPECIFIC modules (case['durs'][m] = [doPoll body, read function],
+        # None = from the script, a number, or a list used cyclically by the successive calls of this function of this
+        # module - a device that is sluggish for a while): the outcome still comes from the script, the entry really
+        # used is recorded
+        durs = self.case.get('durs')
+        if durs and m < len(durs) and durs[m]:
+            col = 0 if kind == 'main' else 1 if kind in ('read', 'mread') else None
+            d_over = durs[m][col] if col is not None else None
+            if isinstance(d_over, list):
+                k = self.ncalls.get((m, col), 0)
+                self.ncalls[(m, col)] = k + 1
+                d_over = d_over[k % len(d_over)] if d_over else None
+            if d_over is not None:
+                ent = [d_over, ent[1]]
         self.used.append(ent)
         self.si += 1
         dur, out = ent
@@ -507,7 +525,20 @@ def oracle(case, obs):
 
     # duration bound of one call of a poll function, as observed
     D = max([c[4] - c[3] for c in obs['calls'] if c[4] is not None] + [0])
-    sweep = (n + 1) * D + eps
+    sweep_coarse = (n + 1) * D + eps
+    # one sweep of the thread's work = doPoll of every module once (each with the longest duration observed for THAT
+    # module) + one slow poll (the longest observed in the loop) + the per-turn overhead
+    t_first = next((e[1] for e in log if e[0] == 'turn'), None)
+    dmain = {}
+    dslow = 0
+    for c in obs['calls']:
+        if c[4] is None:
+            continue
+        if c[0] == 'main':
+            dmain[c[1]] = max(dmain.get(c[1], 0), c[4] - c[3])
+        elif c[0] == 'read' and t_first is not None and c[3] >= t_first:
+            dslow = max(dslow, c[4] - c[3])
+    sweep = sum(dmain.values()) + dslow + eps
 
     # --- main polls, turn by turn.  The requests made at run time are merged into the log by position; a request is
     # in force from the next wake-up (the next evaluation of the loop condition).
@@ -615,7 +646,7 @@ def oracle(case, obs):
         t_loop = turns[0][0]
         t_end = obs['now'] if t_stop is None else t_stop
         P = sum(len(spec_polled(mods[m])) for m in enabled)
-        Q = (P + 2) * sweep
+        Q = (P + 2) * sweep_coarse
         for m in enabled:
             bound = 2 * mods[m]['si'] + 3 * Q
             for i in spec_polled(mods[m]):
@@ -625,6 +656,25 @@ def oracle(case, obs):
                     if b - a > bound:
                         fail('slow-poll-late', f'module {m} parameter p{i}: not read between {a} and {b} '
                              f'(slow interval {mods[m]["si"]}, bound {bound})')
+        # without run-time requests: the bound proved for the model (C13_slow_bound), computed from the durations of
+        # THIS case: 3/2 slowinterval + 2 * Pn * Tn + 2 * dmax, Tn = eps + (all doPoll with their reads + one slow
+        # poll) * dmax the longest loop turn, Pn the number of polled parameters of all modules on the thread; the
+        # theorem speaks about time stamps at the ends of loop turns, the log holds the starts of the calls: + dmax + Tn.
+        # No module on the thread may be starved by the slow polls of another one.
+        if not case['actions'] and not obs['fired']:
+            dmax = max([d for d, _ in obs['used']] + [0])
+            Tn = eps + sum((1 + len(md['main'])) * dmax for md in mods) + dmax
+            for m in enabled:
+                bound = (3 * mods[m]['si'] + 1) // 2 + 2 * P * Tn + 2 * dmax + dmax + Tn
+                for i in spec_polled(mods[m]):
+                    times = [t_loop] + [e[1] for e in log if e[0] in ('read', 'mread') and e[2] == m and e[3] == i
+                                        and e[1] >= t_loop and e[1] <= t_end] + [t_end]
+                    for a, b in zip(times, times[1:]):
+                        if b - a > bound:
+                            fail('slow-poll-late', f'module {m} parameter p{i}: not read between {a} and {b} (no run-time '
+                                 f'requests; slow interval {mods[m]["si"]}, {P} polled parameters on the thread, longest '
+                                 f'call {dmax}, longest turn {Tn}: proved bound 3/2*{mods[m]["si"]} + 2*{P}*{Tn} + '
+                                 f'2*{dmax} + one call + one turn = {bound})')
     return fails
 
 
@@ -781,6 +831,63 @@ def long_run_case(rng):
             'script': [[rng.choice([1, 2, 4]), 'ok'] for _ in range(rng.randint(0, 6))], 'actions': []}
 
 
+def long_main_case(rng):
+    """2..3 modules on one thread; an EARLIER module whose doPoll lasts longer than its own poll interval for a while
+    (explicit durations for this module, `durs`: n_fast short calls, then n_slow long ones, cyclically - a sluggish
+    device), so that it is due again in every sweep, and a LATER module with a long interval, polled on its grid while
+    the thread is idle, which becomes due while the earlier one is being polled: it has to be polled in the same sweep
+    (the clock is read again after each module), otherwise its main poll is late by a second long doPoll of the
+    earlier module"""
+    nm = rng.choice([2, 2, 3])
+    d_a = rng.choice([2 * S, 3 * S, 4 * S])
+    t0 = rng.choice([1000 * S, 1000 * S, 1000 * S + 7, 12345 * S + 513])
+    mods, durs = [], []
+    late = rng.randrange(1, nm)          # the module with the long interval
+    pi_late = rng.choice([5 * S, 6 * S, 7 * S, 10 * S])
+    n_fast = rng.randint(pi_late // S + 1, pi_late // S + 6)
+    n_slow = rng.randint(pi_late // d_a + 1, pi_late // d_a + 3)
+    for k in range(nm):
+        np_ = rng.choice([0, 0, 1, 2])
+        if k == 0:
+            pi, dm = S, [rng.choice([1, S // 16])] * n_fast + [d_a] * n_slow
+        elif k == late:
+            pi, dm = pi_late, rng.choice([1, S // 16, S // 8])
+        else:
+            pi, dm = rng.choice([S, 2 * S]), rng.choice([1, S // 16])
+        mods.append({'enable': True, 'pi': pi, 'si': rng.choice([2 * S, 4 * S, 15 * S]), 'winit': False, 'iread': False,
+                     'main': [], 'params': [{'kind': 'read', 'nopoll': False} for _ in range(np_)]})
+        durs.append([dm, rng.choice([1, S // 16, S // 4])])
+    p_err = rng.choice([0.0, 0.0, 0.2])
+    turns = 2 * (2 * n_fast + n_slow) + rng.randint(0, 20)
+    return {'t0': t0, 'eps': rng.choice([1, 1, 0, 2]), 'turns': turns, 'reconn': False, 'mods': mods,
+            'durs': durs, 'script': [[1, rand_outcome(rng, p_err)] for _ in range(rng.randint(0, 40))], 'actions': []}
+
+
+def slow_overload_case(rng):
+    """2..3 modules with slow-polled parameters on one thread; the FIRST one has many parameters / slow read functions
+    so that one pass through its slow polls (one per loop turn) takes longer than its slowinterval: its round is due
+    again whenever it is worked off.  The parameters of the modules behind it have to be collected in the same refill."""
+    nm = rng.choice([2, 2, 3])
+    d_r = rng.choice([S // 4, S // 2, S])
+    mods, durs = [], []
+    for k in range(nm):
+        if k == 0:
+            np_, si, dr = rng.choice([3, 4]), rng.choice([1, 2]) * d_r, d_r
+        else:
+            np_, si, dr = rng.choice([1, 1, 2]), rng.choice([d_r, 2 * d_r, 4 * d_r]), rng.choice([1, S // 16, d_r])
+        mods.append({'enable': True, 'pi': rng.choice([S, 2 * S, 5 * S]), 'si': max(si, S // 4), 'winit': False,
+                     'iread': False, 'main': [], 'params': [{'kind': 'read', 'nopoll': False} for _ in range(np_)]})
+        durs.append([rng.choice([1, S // 16, S // 8]), dr])
+    P = sum(len(m['params']) for m in mods)
+    # long enough to pass the proved bound 3/2 si + 2 P Tn + 2 dmax (Tn about (nm + 1) * d_r) when a module is starved:
+    # one loop turn lasts about d_r
+    turns = (2 * P + 1) * (nm + 1) + 20 + rng.randint(0, 15)
+    p_err = rng.choice([0.0, 0.0, 0.2])
+    return {'t0': rng.choice([1000 * S, 12345 * S + 513]), 'eps': rng.choice([1, 1, 0, 2]), 'turns': turns,
+            'reconn': False, 'mods': mods, 'durs': durs,
+            'script': [[1, rand_outcome(rng, p_err)] for _ in range(rng.randint(0, 40))], 'actions': []}
+
+
 def small_scope_cases():
     """exhaustive small scope: one module, one parameter of every kind, every outcome class at each of the first
     calls, the three interval regimes"""
@@ -812,6 +919,10 @@ def gen_cases(seed, tier):
         cases.append(startup_failure_case(rng2))
     for _ in range(n // 1300):
         cases.append(long_run_case(rng2))
+    rng3 = random.Random(seed * 104729 + 1313)
+    for _ in range(n // 50):
+        cases.append(long_main_case(rng3))
+        cases.append(slow_overload_case(rng3))
     cases.extend(small_scope_cases() if tier != 'quick' else small_scope_cases()[::5])
     return cases
 
@@ -823,7 +934,10 @@ def shrink(case):
         for i in range(len(case['mods']) - 1, -1, -1):
             if any(len(a) > 2 and a[1] in ('setint', 'fast', 'trig') for a in case['actions']):
                 break
-            yield dict(case, mods=case['mods'][:i] + case['mods'][i + 1:])
+            c2 = dict(case, mods=case['mods'][:i] + case['mods'][i + 1:])
+            if case.get('durs'):
+                c2['durs'] = case['durs'][:i] + case['durs'][i + 1:]
+            yield c2
     if case['turns'] > 2:
         yield dict(case, turns=case['turns'] // 2)
         yield dict(case, turns=case['turns'] - 1)
